@@ -482,6 +482,35 @@ func c09psProof(e common.Env, p *common.Part, n, t, L int, rng *mrand.Rand) {
 		}
 		o.expectReject(field, pert, psVerify(a.tpk, L, alt), nil)
 	}
+	// the in-memory proof object (what ProveKnowledgeOfSignature returns), verified three times through the exported
+	// SigPoK.Verify: same verdict every time, and its serialisation is the same before and after
+	if X, Y, ok := psPublicKeyPoints(a.tpk); ok {
+		var w []ps.SignatureWitness
+		for _, sg := range a.signers {
+			w = append(w, a.wits[sg])
+		}
+		obj := a.sess.prover.ProveKnowledgeOfSignature(&a.sess.secret, a.signers, w)
+		before := obj.Bytes()
+		pp := ps.Setup(curve, L)
+		pk := ps.PK{X: X, Y: Y}
+		var verdicts []string
+		for k := 0; k < 3; k++ {
+			if err := obj.Verify(&pp, pk); err != nil {
+				verdicts = append(verdicts, err.Error())
+			} else {
+				verdicts = append(verdicts, "accepted")
+			}
+		}
+		p.Count("idempotence_checks", 1)
+		switch {
+		case verdicts[0] != "accepted":
+			p.Violate("genuine-rejected/ps-proof-of-knowledge/in-memory-object", fmt.Sprintf("a genuine in-memory proof was rejected by SigPoK.Verify: %s", verdicts[0]), nil)
+		case verdicts[1] != verdicts[0] || verdicts[2] != verdicts[0]:
+			p.Violate("verdict-changes/ps-proof-of-knowledge/in-memory-object", fmt.Sprintf("the same in-memory proof verified three times: %v", verdicts), nil)
+		case !sameBytes(before, obj.Bytes()):
+			p.Violate("verdict-changes/ps-proof-of-knowledge/verification-alters-the-proof", "the serialisation of a proof differs before and after it was verified", nil)
+		}
+	}
 	names := []string{"psi", "h^eps", "h'^eps", "nu", "kappa"}
 	for i := 1; i <= 3; i++ {
 		i := i
@@ -638,7 +667,7 @@ func forgeDegenerateProof(tpkBytes []byte, L int, rng *mrand.Rand) ([]byte, bool
 }
 
 func unitC09(e common.Env, p *common.Part) {
-	p.Rule = "genuine objects made through the public API (BLS partial signatures and aggregates from dealt shares; PS requests, partial signatures, witnesses and proofs), then every bound component perturbed by one group or field unit or swapped with the same field of an object of another session: BLS {digest, each share +G1 / other digest / other key generation / other signer, labels swapped, other key, t-1 shares}; PS request {CM, U, each A[i], B[i], proof S, Z, each X[i], Y[i], D[i], F[i]; and requests of an adaptive requester re-implemented outside the package (self-checked: its honest request is accepted) that plants an offset before the challenge and moves A[j]/B[j] afterwards, or solves D[j]/F[j]/S for a false statement after the challenge}; PS proof {h^eps, h'^eps, nu, kappa, psi.X[i], psi.Y, Gamma, Phi, witnesses swapped / foreign, t-1 witnesses, other key, a proof forged from the public key alone with identity elements}; verdicts that depend on Lagrange coefficients are predicted by an independent math/big reference; same object verified/signed twice; distinct key = (object kind, n, t, field, perturbation); non-trivial when the object differs from the genuine one"
+	p.Rule = "genuine objects made through the public API (BLS partial signatures and aggregates from dealt shares; PS requests, partial signatures, witnesses and proofs), then every bound component perturbed by one group or field unit or swapped with the same field of an object of another session: BLS {digest, each share +G1 / other digest / other key generation / other signer, labels swapped, other key, t-1 shares}; PS request {CM, U, each A[i], B[i], proof S, Z, each X[i], Y[i], D[i], F[i]; and requests of an adaptive requester re-implemented outside the package (self-checked: its honest request is accepted) that plants an offset before the challenge and moves A[j]/B[j] afterwards, or solves D[j]/F[j]/S for a false statement after the challenge}; PS proof {h^eps, h'^eps, nu, kappa, psi.X[i], psi.Y, Gamma, Phi, witnesses swapped / foreign, t-1 witnesses, other key, a proof forged from the public key alone with identity elements}; verdicts that depend on Lagrange coefficients are predicted by an independent math/big reference; same object verified/signed twice (serialised objects; the in-memory request through SignBlindSignature; the in-memory proof through SigPoK.Verify three times, serialisation compared before and after); distinct key = (object kind, n, t, field, perturbation); non-trivial when the object differs from the genuine one"
 	p.Assumptions = append(p.Assumptions, "a forged object verifying by chance has probability ~2^-250: any acceptance is a violation; MPrime of a request is recomputed by the signer and is not in the catalogue")
 	type nt struct{ n, t int }
 	nts := []nt{{2, 2}, {3, 2}, {3, 3}, {4, 2}, {4, 3}, {5, 3}}
@@ -674,6 +703,31 @@ func unitC09(e common.Env, p *common.Part) {
 }
 
 // psLastGenerator reads the last commitment generator out of the scheme's serialised public parameters.
+// psPublicKeyPoints parses the X and Y points out of the serialised threshold public key.
+func psPublicKeyPoints(tpkBytes []byte) (*math.G2, []*math.G2, bool) {
+	var tp ps.ThresholdPK
+	if _, err := asn1.Unmarshal(tpkBytes, &tp); err != nil {
+		return nil, nil, false
+	}
+	var xys ps.XYs
+	if _, err := asn1.Unmarshal(tp.TPK, &xys); err != nil {
+		return nil, nil, false
+	}
+	X, err := curve.NewG2FromBytes(xys.X)
+	if err != nil {
+		return nil, nil, false
+	}
+	var Y []*math.G2
+	for _, yb := range xys.Ys {
+		y, err := curve.NewG2FromBytes(yb)
+		if err != nil {
+			return nil, nil, false
+		}
+		Y = append(Y, y)
+	}
+	return X, Y, true
+}
+
 func psLastGenerator(L int) (*math.G1, bool) {
 	pp := ps.Setup(curve, L)
 	var raw ps.RawPP
